@@ -796,5 +796,5 @@ MANIFEST = {
              "(schedules) every cache open/dump/remove is under the file's FileLock or individually race-tolerant, lock names agree, lock waits are bounded and handled. "
              "This is a decision over all prefixes/interleavings for these clauses because they do not depend on file contents or timing.",
     "note": "Trusted: pickle's documented exception set, filelock semantics (Timeout is a TimeoutError). Not decided: cached answers equal uncached answers; fingerprint completeness.",
-    "technique": "static analysis: exception-cover over the builtin hierarchy, handler dataflow (reset-before-use), lock-region discipline on the AST, dependence of the cache fingerprint on model file systems (os.* modelled), sibling construction of the quick-info database on symbolic paths, trust decision of both cache readers as whole-function models (stale vs current fingerprint), determinism of the cached content over the call closure of the builder",
+    "technique": "static analysis: exception-cover over the builtin hierarchy, handler dataflow (reset-before-use), lock-region discipline on the AST, dependence of the cache fingerprint on model file systems (os.* modelled), sibling construction of the quick-info database on symbolic paths, trust decision of both cache readers as whole-function models (stale vs current fingerprint), determinism of the cached content over the call closure of the builder, data-cache finger print interpreted on model file systems",
 }
